@@ -68,9 +68,18 @@ def main(job_path, out_path):
     # two passes over the whole job list: the first with nothing else going on in the process (the
     # reference), the second with unrelated library use before every job -- whatever that leaves
     # behind (a cache, a counter, a shared table) is there for every later job of the pass
+    def build(s):
+        if "x" not in s:
+            return am.g_schema(s)
+        if s["x"] == "add":
+            return am.g_schema(s["a"]) + am.g_schema(s["b"])
+        if s["x"] == "make_required":
+            from d42.utils import make_required
+            return make_required(am.g_schema(s["a"]))
+        return d42.substitute(am.g_schema(s["a"]), am.g_value(s["b"]))
+
     def one_run(job):
-        schemas = [(am.g_schema(s["a"]) + am.g_schema(s["b"])) if "x" in s else am.g_schema(s)
-                   for s in job["seq"]]
+        schemas = [build(s) for s in job["seq"]]
         del draws[:]
         Random().set_seed(seed_of(job))
         vals = []
